@@ -5,6 +5,7 @@ import (
 	"go/token"
 	"go/types"
 	"sort"
+	"strings"
 
 	"golang.org/x/tools/go/ssa"
 )
@@ -429,4 +430,217 @@ func (p *Prog) sizeofBasic(b *types.Basic) int64 {
 		return 4
 	}
 	return 8
+}
+
+// SIGNX (C13): a signed property is read by a parser that knows the minus sign.
+//
+// Instances: in package xmp, every conversion to a signed integer type whose operand is the result of one of the
+// unsigned decimal parsers (parseUint, parseUint8, ...). The function doing it must test a byte against '-'
+// somewhere: otherwise the '-' is run through the digit loop, the number comes out as garbage and the range check
+// turns it into 0 - xmp:Rating="-1" (rejected), the one negative value the specification defines, reads as 0
+// (unrated).
+func ruleSignX(p *Prog, r *Report) {
+	r.Explain("SIGNX: in package xmp a function that converts the result of an unsigned decimal parser to a signed integer type also compares a byte with the minus sign: a signed property (xmp:Rating, -1 = rejected) parsed without it reads every negative value as 0.")
+	pk := p.SSAPkg("xmp")
+	if pk == nil {
+		r.Fatal("unresolved anchor: package xmp")
+		return
+	}
+	n := 0
+	for _, f := range p.AllLibFns() {
+		g := f
+		for g.Parent() != nil {
+			g = g.Parent()
+		}
+		if g.Pkg != pk || f.Blocks == nil {
+			continue
+		}
+		var convs []*ssa.Convert
+		minus := false
+		eachInstr(f, func(_ *ssa.BasicBlock, _ int, in ssa.Instruction) {
+			switch x := in.(type) {
+			case *ssa.Convert:
+				tb, ok := x.Type().Underlying().(*types.Basic)
+				if !ok || tb.Info()&types.IsInteger == 0 || tb.Info()&types.IsUnsigned != 0 {
+					return
+				}
+				c, ok := x.X.(*ssa.Call)
+				if !ok {
+					return
+				}
+				sc := c.Call.StaticCallee()
+				if sc == nil || sc.Pkg != pk || !strings.HasPrefix(sc.Name(), "parseUint") {
+					return
+				}
+				convs = append(convs, x)
+			case *ssa.BinOp:
+				if x.Op == token.EQL || x.Op == token.NEQ {
+					for _, o := range []ssa.Value{x.X, x.Y} {
+						if k, ok := constInt(o); ok && k == '-' {
+							minus = true
+						}
+					}
+				}
+			}
+		})
+		for i, cv := range convs {
+			n++
+			key := fmt.Sprintf("%s | signed value #%d from an unsigned parse", fnName(f), i+1)
+			at := p.posStr(cv.Pos())
+			if minus {
+				r.OK("SIGNX", key, at, "the function tests for the minus sign")
+			} else {
+				r.Bad("SIGNX", key, at, fmt.Sprintf("the result of %s is converted to %s in a function that never looks for a minus sign: a negative value is parsed as digits, fails the range check and reads as 0", shortCallee(&cv.X.(*ssa.Call).Call), cv.Type().String()))
+			}
+		}
+	}
+	r.Extra("signx_conversions", n)
+}
+
+// EQREFL (C13): the equality of properties that the tokenizer closes elements with is plain equality.
+//
+// readTag leaves an element when isEndTag finds the stop tag Equals to the start tag. Equals is documented as
+// equality of the two properties; every comparison in it must therefore be between an element of the receiver and
+// an element of the argument. A comparison of either with a constant (a special case for the unidentified
+// property, say) makes some property unequal to itself, its stop tag is never recognised, and every such element
+// costs one level of the depth budget for the rest of the packet.
+func ruleEqRefl(p *Prog, r *Report) {
+	r.Explain("EQREFL: xmpns.(Property).Equals compares elements of the receiver with elements of the argument and nothing with a constant: the tokenizer closes an element when its stop tag Equals its start tag, so the relation has to be reflexive for every property, the unidentified one included.")
+	f := p.Func("xmp/xmpns", "Property", "Equals")
+	key := "xmp/xmpns.(Property).Equals | compares the two properties with each other only"
+	if f == nil {
+		r.Undecided("EQREFL", key, "-", "unresolved anchor")
+		return
+	}
+	bad := ""
+	ncmp := 0
+	eachInstr(f, func(_ *ssa.BasicBlock, _ int, in ssa.Instruction) {
+		bo, ok := in.(*ssa.BinOp)
+		if !ok {
+			return
+		}
+		switch bo.Op {
+		case token.EQL, token.NEQ, token.LSS, token.LEQ, token.GTR, token.GEQ:
+		default:
+			return
+		}
+		ncmp++
+		_, cx := bo.X.(*ssa.Const)
+		_, cy := bo.Y.(*ssa.Const)
+		if (cx || cy) && bad == "" {
+			bad = fmt.Sprintf("the comparison at %s is against a constant: some property is then not Equal to itself, the stop tag of an element carrying it is never recognised and the element's siblings are read one level deeper, until the depth limit ends the parse", p.posStr(bo.Pos()))
+		}
+	})
+	eachCall(f, func(site ssa.CallInstruction) {
+		if sc := site.Common().StaticCallee(); sc != nil && isRepoFn(sc) && bad == "" {
+			bad = "the result depends on a call of " + fnName(sc) + " (" + p.posStr(instrPos(site)) + "), not on a comparison of the two properties"
+		}
+	})
+	switch {
+	case bad != "":
+		r.Bad("EQREFL", key, p.posStr(f.Pos()), bad)
+	case ncmp == 0:
+		r.Undecided("EQREFL", key, p.posStr(f.Pos()), "no comparison found")
+	default:
+		r.OK("EQREFL", key, p.posStr(f.Pos()), fmt.Sprintf("%d comparisons, each between the receiver and the argument", ncmp))
+	}
+}
+
+// XBUF (C13): the buffered reader the tokenizer peeks through is as large as its look-ahead windows assume.
+//
+// WINFIT proves that the windows fit a buffer of the package's own size constant. The reader stored into the
+// xmpReader must therefore be one the package made with at least that size, or the caller's own under a test of its
+// Size() against that constant: a caller's smaller bufio.Reader used as it is ends every long value in ErrBufferFull,
+// so the buffered and the unbuffered entry disagree.
+func ruleXBuf(p *Prog, r *Report) {
+	r.Explain("XBUF: every *bufio.Reader stored into the tokenizer's reader field is the result of bufio.NewReaderSize with the package's buffer-size constant (or more), or a caller's reader on a path where its Size() was compared with that constant and found sufficient.")
+	f := p.Func("xmp", "", "newXMPReader")
+	key := "xmp.newXMPReader | the reader peeked through has the buffer size the windows assume"
+	if f == nil {
+		r.Undecided("XBUF", key, "-", "unresolved anchor")
+		return
+	}
+	want, ok := constByName(p, "xmp", "xmpBufferLength")
+	if !ok {
+		r.Undecided("XBUF", key, p.posStr(f.Pos()), "size constant xmpBufferLength not found")
+		return
+	}
+	bad := ""
+	n := 0
+	var judge func(v ssa.Value, at *ssa.BasicBlock, viaPhi *ssa.Phi, edge int, d int)
+	judge = func(v ssa.Value, at *ssa.BasicBlock, viaPhi *ssa.Phi, edge int, d int) {
+		if d > 6 || bad != "" {
+			return
+		}
+		switch x := v.(type) {
+		case *ssa.Call:
+			if isCallTo(&x.Call, "bufio.NewReaderSize") {
+				if k, ok := constInt(x.Call.Args[1]); ok && k >= want {
+					n++
+					return
+				}
+				bad = "bufio.NewReaderSize at " + p.posStr(x.Pos()) + " is not given the size constant (or more)"
+				return
+			}
+			if isCallTo(&x.Call, "bufio.NewReader") {
+				n++ // 4096 by default
+				return
+			}
+			bad = "the reader is the result of " + shortCallee(&x.Call)
+		case *ssa.Phi:
+			for i, e := range x.Edges {
+				judge(e, x.Block().Preds[i], x, i, d+1)
+			}
+		case *ssa.Extract, *ssa.TypeAssert:
+			// the caller's reader: some dominating condition at the place it is chosen compares its Size() with the constant
+			conds := condsAt(at)
+			if viaPhi != nil {
+				pred := viaPhi.Block().Preds[edge]
+				if ifi, ok := pred.Instrs[len(pred.Instrs)-1].(*ssa.If); ok && len(pred.Succs) == 2 {
+					conds = append(conds, Cond{V: ifi.Cond, True: pred.Succs[0] == viaPhi.Block(), At: pred})
+				}
+			}
+			sized := false
+			for _, c := range conds {
+				bo, ok := c.V.(*ssa.BinOp)
+				if !ok {
+					continue
+				}
+				for _, pr := range [][2]ssa.Value{{bo.X, bo.Y}, {bo.Y, bo.X}} {
+					call, ok := pr[0].(*ssa.Call)
+					k, okk := constInt(pr[1])
+					if ok && okk && isCallTo(&call.Call, "(*bufio.Reader).Size") && k >= want {
+						sized = true
+					}
+				}
+			}
+			if sized {
+				n++
+			} else {
+				bad = "the caller's *bufio.Reader is used without its Size() having been compared with the window size: on a smaller buffer every value longer than it ends in bufio.ErrBufferFull, where the unbuffered entry reads it"
+			}
+		default:
+			bad = "reader of unknown origin: " + shortVal(v)
+		}
+	}
+	eachInstr(f, func(b *ssa.BasicBlock, _ int, in ssa.Instruction) {
+		st, ok := in.(*ssa.Store)
+		if !ok {
+			return
+		}
+		fa, ok := st.Addr.(*ssa.FieldAddr)
+		if !ok || typeStr(st.Val.Type()) != "*bufio.Reader" {
+			return
+		}
+		_ = fa
+		judge(st.Val, b, nil, 0, 0)
+	})
+	switch {
+	case bad != "":
+		r.Bad("XBUF", key, p.posStr(f.Pos()), bad)
+	case n == 0:
+		r.Undecided("XBUF", key, p.posStr(f.Pos()), "no store of a *bufio.Reader found")
+	default:
+		r.OK("XBUF", key, p.posStr(f.Pos()), fmt.Sprintf("%d origin(s) of the reader, each of at least %d bytes", n, want))
+	}
 }
